@@ -24,14 +24,38 @@ add("C47", "vh-misc", True, "exploration",
     "Expected text comes from std's String formatter. Held only on the inputs explored.")
 
 # not built yet: crate assignment only
-P.setdefault("C01", dict(crate="vh-rt", built=False))
-P.setdefault("C02", dict(crate="vh-rt", built=False))
-P.setdefault("C03", dict(crate="vh-rt", built=False))
-P.setdefault("C04", dict(crate="vh-rt", built=False))
-P.setdefault("C05", dict(crate="vh-rt", built=False))
-P.setdefault("C06", dict(crate="vh-rt", built=False))
-P.setdefault("C08", dict(crate="vh-rt", built=False))
-P.setdefault("C09", dict(crate="vh-rt", built=False))
+add("C01", "vh-rt", True, "exploration",
+    'metamorphic + model-based property testing (proptest worlds, k delivery scripts, reference braid model)',
+    'Generated command DAGs are delivered to 2-4 replicas by independent generated scripts (orders, batching, commit points, flushes, duplicates, both storage back ends); head lists, full fact scans and hello heads must be pairwise identical and equal to a storage-independent reference model.',
+    'Trusts the harness reference model and AuditPolicy; sync-built replicas are exercised under C16. Held on the worlds/scripts explored.')
+add("C02", "vh-rt", True, "exploration",
+    'model-based property testing with an auditing policy (proptest)',
+    'An auditing Policy logs every rule evaluation; for each add_commands (delivered merges) and each multi-head commit the in-braid log must equal the reference application order and verdicts (exactly once, ancestors first, merges never evaluated), incl. braids that overflow the 256-entry braid block.',
+    'Reference braid order from the harness model; convergence-map spill (>256 branch points) only reached in the thorough tier.')
+add("C03", "vh-rt", True, "exploration",
+    'model-based / differential property testing against a reference braid (proptest)',
+    'After every commit the fact cache, and at the end the stored fact perspective at every merge, must equal a reference braid computed from the abstract DAG (dominator-chain LCA, smallest (priority,id) first, stop at lone strand), across segment layouts, flush points and both back ends.',
+    'The reference model is the oracle; it was written from the property statement and the documented rule, not from the code.')
+add("C04", "vh-rt", True, "exploration",
+    'stateful model-based property testing (proptest op sequences)',
+    "Op sequences drive a replica into multi-head states and run actions that dump the fact view they observe: fact_cache before == view in action == reference; action parent == address hello_head advertised; that address absent before and present after; the sink sees only the action's own effects.",
+    "Sessions' view of multi-head graphs is covered by C14. Held on the sequences explored.")
+add("C05", "vh-rt", True, "exploration",
+    'stateful model-based property testing with a property-level predicate (proptest)',
+    'Worlds with freely placed finalize commands; a merge or multi-head commit must fail with ParallelFinalize iff its region above the last common ancestor holds two causally unordered finalize commands (predicate computed on the abstract DAG, independent of the braid walk), leaving committed ids, heads and facts unchanged.',
+    'Assumes no stored merge spans two unordered finalize commands (the runtime refuses to store one). Results of add_commands on a transaction already overtaken by another commit are not constrained.')
+add("C06", "vh-rt", True, "exploration",
+    'stateful model-based property testing (proptest op sequences with poison commands)',
+    'Poison commands (write facts, emit an effect, then reject) at generated positions inside multi-transaction op sequences; rejected => PolicyError::Rejected, children => NoSuchParent, all else accepted with exact counts; after every op the walked committed id set, heads and fact scan equal the model and no effect of a rejected command is ever committed.',
+    'Guards are evaluated before writes in AuditPolicy; VM-policy recall paths are covered by C30/C07.')
+add("C08", "vh-rt", True, "exploration",
+    'stateful model-based property testing (harness-owned interleaving of up to 4 transactions + actions)',
+    'The harness interleaves calls on up to four open transactions and actions; the committed id set (full graph walk) must equal the model after every op (hence never shrinks); commit returns ConcurrentTransaction iff another commit/action succeeded after the transaction first read the heads, else committed = previous + accepted.',
+    'ClientState is &mut, so an interleaving is an order of API calls; no thread-level concurrency exists at this API.')
+add("C09", "vh-rt", True, "exploration",
+    'stateful model-based property testing (invariant after every op)',
+    'After every successful commit or action (in the C01/C06/C08 engines and a dedicated generator with duplicates, deep parents, merges of non-tip commands, flushes) the head list must be strictly increasing by id and equal to the frontier of the walked committed graph.',
+    'Frontier computed from the walked graph and the abstract DAG.')
 P.setdefault("C10", dict(crate="vh-rt", built=False))
 P.setdefault("C11", dict(crate="vh-rt", built=False))
 P.setdefault("C14", dict(crate="vh-rt", built=False))
